@@ -325,7 +325,7 @@ fn c09_blk_fail_k() {
                 assert!(DMA_CNT == k - 1, "C09: allocations made before the failing one");
                 if k == 2 { assert!(DMA[0].deallocs == 1, "C09: region allocated before the failure must be returned exactly once"); }
                 assert!(ev_count(EV_QUEUE_SET) == 0, "C06: queue registered although its memory could not be allocated");
-                assert!(ev_find(EV_SET_STATUS, Some(15), 0).is_none(), "C08: DRIVER_OK set by a failed construction");
+                assert!(ev_find(EV_SET_STATUS, Some(15), 0).is_none(), "C08/C09: DRIVER_OK set by a failed construction (the device is live while the memory of its queues is released)");
             }
         }
         Ok(b) => {
